@@ -41,7 +41,7 @@ def run(chk):
         raise AnalysisError('calculate_strain_stress vanished')
     where = ms.where(f)
     d = X.Decider(seed=chk.seed, k=3 if chk.tier == 'quick' else 12)
-    freq = X.atom('freq', 'pos')
+    freq = X.atom('freq')             # a forcing frequency of either sign (the signed mode frequency is a legal argument): tests on it are explored on every arm
 
     cur = {'d': d}
 
